@@ -138,6 +138,9 @@ class C07(TraceCheck):
                    "up": rng.choice([0, 0, 1, 2, h]), "steps": steps}
 
     def run_history(self, hist):
+        # in every third history the rows handed to the window are restyled versions of values rendered before
+        import zlib
+        derive = zlib.crc32(json.dumps(hist, sort_keys=True, default=str).encode()) % 3 == 0
         from curtsies.window import CursorAwareWindow
         h, w = hist["h"], hist["w"]
         out = winlib.QueryStream(h, w)
@@ -154,7 +157,7 @@ class C07(TraceCheck):
             ev.append({"k": "enter", "toks": enc.lex(out.take()), "reply": out.replies[-1] if out.replies else [0, 0],
                        "top": win.top_usable_row})
             for st in hist["steps"]:
-                arr = winlib.build_array(st["arr"], st.get("kind", "list"))
+                arr = winlib.build_array(st["arr"], st.get("kind", "list"), derive=derive)
                 rec = {"k": "render", "arr": [enc.enc_value(r) for r in arr], "cp": st["cp"], "exc": "", "ret": 0}
                 try:
                     rec["ret"] = win.render_to_terminal(arr, tuple(st["cp"]))
